@@ -11,7 +11,7 @@ RULE = ("structured: one target gate of every multi-input type with fan-in k-1, 
         "every type (input, constants, every gate type) with k-1, k, k+1, 2k+1 loads of mixed types (limit_fanout) for k in 2..5, "
         "operands drawn from inputs, constants and derived gates, helper-name clashes (<n>_limit_fanin_<i>, ..._<i>_0, "
         "<n>_limit_fanout_<i>, <n>_cg_insert_reg_q_<i>), second target above k, downstream logic; random lint-clean DAGs with "
-        "fan-in up to 7; insert_registers on DAGs of depth >= 2 with num_stages 0..3 (with and without a node called clk, clk "
+        "fan-in up to 7; small cyclic circuits (loop through / self loop on the limited node, judged by brute force over all valuations); insert_registers on DAGs of depth >= 2 with num_stages 0..3 (with and without a node called clk, clk "
         "as a gate); acyclic_unroll on acyclic circuits; k in {0,1} for the documented rejection. "
         "non-trivial = at least one helper node / flop was inserted (or the call was rejected as documented); distinct = canonical input")
 EXPLANATION = ("run validators for limit_fanin/limit_fanout and a model of insert_registers proved function-preserving for all circuits, "
@@ -158,6 +158,45 @@ def gen_fanout_struct(rng, t, k, nl):
     return {"fn": "limit_fanout", "circuit": _finish(rng, d), "k": k, "tags": ["struct", t, f"fo=k{nl - k:+d}" if nl != 2 * k + 1 else "fo=2k+1"] + tags}
 
 
+def gen_cyclic(rng, fn):
+    """small lint-clean circuits with a combinational loop through (or a self loop on) the node that is limited;
+    judged by the brute-force branch of the oracle (all valuations of all nodes)"""
+    k = 2
+    nodes = [["a", "input", False, []], ["b", "input", False, []]]
+    if fn == "limit_fanin":
+        ar = 3
+        d = ["d", rng.choice(MULTI), False, ["a", "b"]]
+        pool = ["a", "b", "d"]
+        if rng.random() < 0.3:
+            nodes.append(["c", rng.choice(["input", "0", "1"]), False, []]); pool.append("c")
+        g = ["g", rng.choice(MULTI), True, sorted(rng.sample(pool, min(ar, len(pool))))]
+        mode = rng.choice(["loop", "self"])
+        if mode in ("loop", "both"):
+            d[3] = sorted(set(d[3]) | {"g"}); g[3] = sorted(set(g[3]) | {"d"})
+        if mode in ("self", "both"):
+            g[3] = sorted(set(g[3]) | {"g"})
+        nodes += [d, g]
+        if rng.random() < 0.5:
+            nodes.append(["h", "not", True, ["g"]])
+    else:
+        nl = 3
+        s = ["s", rng.choice(MULTI), rng.random() < 0.3, ["a", "b"]]
+        loads = []
+        for j in range(nl):
+            lt = rng.choice(["buf", "not"] + MULTI)
+            loads.append([f"l{j}", lt, True, ["s"] if lt in ("buf", "not") else sorted({"s", rng.choice(["a", "b"])})])
+        mode = rng.choice(["loop", "self"])
+        if mode in ("loop", "both"):
+            s[3] = sorted(set(s[3]) | {loads[0][0]})
+        if mode in ("self", "both"):
+            s[3] = sorted(set(s[3]) | {"s"})
+        nodes += [s] + loads
+    d_ = {"name": "top", "nodes": nodes, "bbs": []}
+    if rng.random() < 0.5:
+        rng.shuffle(d_["nodes"])
+    return {"fn": fn, "circuit": _check_unique(d_), "k": k, "tags": ["cyclic"]}
+
+
 def gen_random(rng, fn):
     d = lib.rand_dag(rng, rng.randint(2, 5), rng.randint(3, 10), max_fanin=rng.choice([3, 5, 7]), p_const=0.3,
                      consts=("0", "1", "x") if rng.random() < 0.3 else ("0", "1"))
@@ -210,6 +249,7 @@ def generate(rng, tier):
                         out.append(gen_fanout_struct(rng, t, k, nl))
     n = 40 if tier == "quick" else 250
     out += [gen_random(rng, "limit_fanin") for _ in range(n)] + [gen_random(rng, "limit_fanout") for _ in range(n)]
+    out += [gen_cyclic(rng, fn) for fn in ("limit_fanin", "limit_fanout") for _ in range(10 if tier == "quick" else 60)]
     out += [gen_reject(rng, rng.choice(["limit_fanin", "limit_fanout"])) for _ in range(4 if tier == "quick" else 12)]
     out += [gen_regs(rng) for _ in range(60 if tier == "quick" else 300)]
     out += [gen_unroll(rng) for _ in range(30 if tier == "quick" else 120)]
@@ -337,7 +377,7 @@ def classify(case, obs):
         tags = case.get("tags", [])
         if "struct" in tags:
             out.append(f"{fn}:{tags[1]}:{tags[2]}")
-        out += [f"{fn}:{t}" for t in tags if t in ("clash0", "clash0_0", "clash1", "second", "random", "k<2")]
+        out += [f"{fn}:{t}" for t in tags if t in ("clash0", "clash0_0", "clash1", "second", "random", "k<2", "cyclic")]
     elif fn == "insert_registers":
         out.append(f"{fn}:stages={case['stages']}")
         if "out" in obs:
